@@ -179,6 +179,20 @@ CHECKS = {
             "bodies are well-formed for types the library parses.",
             "TLA+ spec as reference + TLC generation, replay into the real https service",
             "DESIGN.md §3 C13"),
+    "C16": ("model_checking",
+            "AgentMux.tla models the agent session's connection table (first-match lookup by address pair, generations), delivery of data "
+            "to the service of the current generation, echo back to the agent, EOF and service-side close; TLC checks InOrderExactlyOnce, "
+            "Isolation and NoLossWhileOpen over all sequences of <= 5 messages on 2 connections (incl. re-announcing a pair) and simulated "
+            "ones on 3, and requires the transcribed stale-entry deviation to violate them; AgentCodec.tla states RoundTrip for every message "
+            "type x tcp/udp x IPv4/IPv6 x ports x 13 payload length classes. Message sequences are played by a scripted agent (libdisco "
+            "Noise_NK client, honeytrap's exported message types) against the REAL agent listener started by the real server; an echo "
+            "service answers per virtual connection; bytes read per connection and frames returned per connection are compared with the "
+            "specification; payloads 1..4000 bytes and single payloads 4075..65000; every codec record goes through the real "
+            "MarshalBinary/UnmarshalBinary.",
+            "Lock-step driving (echo awaited before the next message), so races inside agentConnection.Read (wake-up signalling) are "
+            "not forced; UDP relay messages are covered by the codec part only.",
+            "TLA+ specs + TLC exhaustive/simulate generation, replay against the real agent listener, codec transition replay",
+            "DESIGN.md §3 C16"),
 }
 
 NOT_YET = "check not built yet in this session (see DESIGN.md §10 for the order of construction)"
